@@ -725,12 +725,12 @@ theorem io_roundtrip (top' : Name) (H' : Hier) (hF : fromDict D top = .ok (top',
 end RoundTrip
 
 /-! Non-vacuity: a loop region with its latch, written and read back. -/
-def exH : Hier := [
+def exIO : Hier := [
   { cont := "m", name := "0", jts := ["loop_region_0"] },
   { cont := "m", name := "2" },
   { cont := "m", name := "loop_region_0", kind := .region, jts := ["2"], rkind := "loop",
     header := "1", exiting := "1", parent := "m" },
   { cont := "loop_region_0", name := "1", jts := ["1", "2"], bes := ["1"] }]
-example : ioReady exH "m" = true := by decide
+example : ioReady exIO "m" = true := by decide
 
 end Scfg.C15
